@@ -14,16 +14,17 @@ class Facts:
         self.impls = []     # recs
         self.fn_index = {}  # d -> list of (file, off, len, u, k, srcfile, line)
         self.callers = {}   # callee name -> [caller d]
+        self.constructors = {}  # adt path -> [fn d that builds it with an aggregate]
         self._cache = {}
         idx = os.path.join(d, 'index.pkl')
         if os.path.exists(idx):
             with open(idx, 'rb') as f:
-                (self.crates, self.adts, self.traits, self.impls, self.fn_index, self.callers) = pickle.load(f)
+                (self.crates, self.adts, self.traits, self.impls, self.fn_index, self.callers, self.constructors) = pickle.load(f)
         else:
             self._build()
             tmp = idx + '.%d' % os.getpid()
             with open(tmp, 'wb') as f:
-                pickle.dump((self.crates, self.adts, self.traits, self.impls, self.fn_index, self.callers), f)
+                pickle.dump((self.crates, self.adts, self.traits, self.impls, self.fn_index, self.callers, self.constructors), f)
             os.replace(tmp, idx)
 
     def _build(self):
@@ -44,6 +45,8 @@ class Facts:
                             (fn, off, n, h['u'], h['k'], h['file'], h['line'], crate, tuple(h['sig'])))
                         for c in h['callees']:
                             self.callers.setdefault(c, []).append(d)
+                        for c in h.get('aggs', ()):
+                            self.constructors.setdefault(c, []).append(d)
                     else:
                         r = json.loads(line)
                         k = r['rec']
